@@ -336,6 +336,7 @@ ITEM_METHODS = {'get', 'setdefault', '__getitem__', 'values', 'items', 'keys', '
                 'pop'}
 KEEPING_FUNCS = {'list', 'tuple', 'set', 'dict', 'frozenset', 'sorted'}     # results hold references to their arguments
 MAX_CONDS = 11
+INLINE_DEPTH = 4          # calls of own methods / private helpers are inlined up to this depth
 CTOR_MAX_CONDS = 6        # constructors: beyond 2^5 paths the arms of branches are merged instead of enumerated
 # converters that cannot re-class their argument and return a new container holding its items (validated by tie C:
 # the correspondence compares 'same object / new object' of every converter with what its program predicts)
@@ -379,6 +380,55 @@ def _root_vars(e):
     return {e[1]} if e[0] == 'var' else set()
 
 
+_SCALAR = {}
+
+
+def _scalar_keyword(name):
+    """DICOM keyword whose value is one immutable str / int / float / UID (VM 1, not a sequence, not bulk data)"""
+    if name not in _SCALAR:
+        ok = False
+        if name[:1].isupper():
+            try:
+                from pydicom.datadict import dictionary_VM, dictionary_VR, tag_for_keyword
+                tag = tag_for_keyword(name)
+                if tag is not None:
+                    ok = dictionary_VM(tag) == '1' and dictionary_VR(tag) in (
+                        'AE', 'AS', 'CS', 'DA', 'DS', 'DT', 'FL', 'FD', 'IS', 'LO', 'LT', 'PN', 'SH', 'SL', 'SS', 'ST', 'TM', 'UC',
+                        'UI', 'UL', 'UR', 'US', 'UT', 'SV', 'UV')
+            except Exception:  # noqa: BLE001
+                ok = False
+        _SCALAR[name] = ok
+    return _SCALAR[name]
+
+
+_MULTI = {}
+
+
+def _multi_scalar_keyword(name):
+    """DICOM keyword whose value is a MultiValue of immutable str / numbers (not a sequence, not bulk data, VM > 1)"""
+    if name not in _MULTI:
+        ok = False
+        if name[:1].isupper():
+            try:
+                from pydicom.datadict import dictionary_VM, dictionary_VR, tag_for_keyword
+                tag = tag_for_keyword(name)
+                if tag is not None:
+                    ok = dictionary_VM(tag) != '1' and dictionary_VR(tag) in (
+                        'AE', 'AS', 'CS', 'DA', 'DS', 'DT', 'FL', 'FD', 'IS', 'LO', 'PN', 'SH', 'SL', 'SS', 'TM', 'UC',
+                        'UI', 'UL', 'US', 'SV', 'UV', 'US or SS')
+            except Exception:  # noqa: BLE001
+                ok = False
+        _MULTI[name] = ok
+    return _MULTI[name]
+
+
+def _item_of(e):
+    """an item of what `e` denotes; an item of an item is looked up under its own label"""
+    if e[0] == 'view' and e[1] in (ITEM, NESTED):
+        return ('view', NESTED, e[2])
+    return ('view', ITEM, e)
+
+
 def _is_fresh(e):
     if e[0] == 'view':
         return _is_fresh(e[2])
@@ -387,7 +437,9 @@ def _is_fresh(e):
     return e[0] == 'fresh'
 
 
-SAME, ITEM, KEPT = 0, 1, 2    # labels: the same object seen differently / an item of a container / an argument a
+SAME, ITEM, KEPT, ELEM, NESTED = 0, 1, 2, 3, 4    # NESTED: an item of an item (a dict of lists, a list of lists): kept apart
+# from the items of the outer container, which lives in the same region.  ELEM: a DataElement object put into a data set with `add` (shared, not copied);
+# labels: the same object seen differently / an item of a container / an argument a
 #                               constructor call keeps somewhere inside its result (reached by deep writes only)
 
 
@@ -402,15 +454,47 @@ class _Alias:
         self.has_copy = 'copy' in params
         self.conds = ['copy']            # condition 0 is reserved for the copy flag
         self.compenv = {}
-        self.labels = {}                 # attribute name -> view / link label (>= 2)
+        self.labels = {}                 # attribute name -> view / link label (>= 4)
         self.is_method = bool(fn.args.args) and fn.args.args[0].arg == 'self'
+        self.scope = ''                  # prefix of the variables of the function being inlined
+        self.stack = [id(fn)]            # functions being inlined (no recursion)
+        self.ret_var = None              # inside an inlined body: the variable that collects returned values
+        self.methods = {}                # name -> FunctionDef: methods reachable through self / cls / super()
+        self.functions = {}              # name -> FunctionDef: private module-level helpers
+        self.inlined = []
+        self.unmodelled = set()          # internal callees that receive a tracked reference and are not inlined
+        self.scope_cls = None            # class whose method body is being inlined (for self / super() inside it)
+        self._next_cls = None
+        self.local_funcs = {}            # nested function definitions (closures), by scoped name
+        self.cls_name = None
+        self.mvvars = set()              # variables bound to the value of a multi-valued non-sequence DICOM attribute
+        self.itemvars = set()            # variables bound to an item of a container (an inner container of the same region)
+        self.local_classes = {}
 
     def label(self, name):
         if name not in self.labels:
-            self.labels[name] = len(self.labels) + 3
+            self.labels[name] = len(self.labels) + 5
         return self.labels[name]
 
+    def is_multi_scalar(self, e):
+        if e[0] == 'var':
+            return e[1] in self.mvvars
+        if e[0] == 'view' and e[1] >= 5:
+            name = {v: k for k, v in self.labels.items()}.get(e[1], '')
+            return _multi_scalar_keyword(name)
+        return False
+
+    def item_of(self, e):
+        if self.is_multi_scalar(e):
+            return FRESH                     # an item of a multi-valued (non-sequence) DICOM attribute: an immutable value
+        """an item of what `e` denotes; when `e` itself is an item of a container (syntactically, or a variable that was bound to
+        one) the item is looked up under the label of nested items"""
+        if e[0] == 'var' and e[1] in self.itemvars:
+            return ('view', NESTED, e)
+        return _item_of(e)
+
     def var(self, name):
+        name = self.scope + name if not name.startswith('%') else name
         if name not in self.vars:
             self.vars[name] = len(self.vars)
         return self.vars[name]
@@ -451,16 +535,18 @@ class _Alias:
         if isinstance(node, ast.Name):
             if node.id in self.compenv:
                 return pre, self.compenv[node.id]
-            if node.id in self.vars:
-                return pre, ('var', self.vars[node.id])
+            if self.scope + node.id in self.vars:
+                return pre, ('var', self.vars[self.scope + node.id])
             return pre, FRESH
         if isinstance(node, ast.Attribute):
             p, b = self.expr(node.value)
+            if _scalar_keyword(node.attr):
+                return p, FRESH          # a single-valued non-sequence DICOM attribute: an immutable str / number
             return p, ('view', self.label(node.attr), b)
         if isinstance(node, ast.Subscript):
             p, b = self.expr(node.value)
             p2, _ = self.expr(node.slice)
-            return p + p2, ('view', ITEM, b)
+            return p + p2, self.item_of(b)
         if isinstance(node, ast.Starred):
             return self.expr(node.value)
         if isinstance(node, (ast.Tuple, ast.List, ast.Set)):
@@ -507,7 +593,7 @@ class _Alias:
                         return pa, FRESH
                     if isinstance(ck[0], ast.Constant) and ck[0].value is False:
                         return pa + inplace, ('var', t)
-                    if isinstance(ck[0], ast.Name) and ck[0].id == 'copy' and self.has_copy:
+                    if isinstance(ck[0], ast.Name) and ck[0].id == 'copy' and self.has_copy and not self.scope:
                         return pa + [('ite', 0, [('assign', t, FRESH)], inplace)], ('var', t)
                     raise Unsupported(f'{self.fn.name}: converter call with copy={ast.unparse(ck[0])}')
                 if kind == 'private' and not ck:
@@ -516,10 +602,13 @@ class _Alias:
                     return pa, FRESH
                 if isinstance(ck[0], ast.Constant) and ck[0].value is False:
                     return pa + [('deep', a)], a
-                if isinstance(ck[0], ast.Name) and ck[0].id == 'copy' and self.has_copy:
+                if isinstance(ck[0], ast.Name) and ck[0].id == 'copy' and self.has_copy and not self.scope:
                     t = self.tmp()
                     return pa + [('ite', 0, [('assign', t, FRESH)], [('deep', a), ('assign', t, a)])], ('var', t)
                 raise Unsupported(f'{self.fn.name}: converter call with copy={ast.unparse(ck[0])}')
+            callee, bind_self = self.resolve(node)
+            if callee is not None:
+                return self.inline(node, callee, bind_self)
             vals = []
             for a in args + [k.value for k in node.keywords]:
                 pe, e = self.expr(a)
@@ -542,15 +631,23 @@ class _Alias:
                         pre.append(('link', vals[0], lab, e))
                 return pre, FRESH
             if isinstance(node.func, ast.Attribute):
-                pr, recv = self.expr(node.func.value)
+                if ast.unparse(node.func.value) == 'super()' and self.scope + 'self' in self.vars:
+                    pr, recv = [], ('var', self.vars[self.scope + 'self'])      # an inherited (external) method acts on self
+                else:
+                    pr, recv = self.expr(node.func.value)
                 pre += pr
                 if node.func.attr in MUTATORS:
                     pre.append(('write', recv))
+                    holder, lab = recv, ITEM
+                    if recv[0] == 'view' and recv[1] in (ITEM, NESTED):
+                        holder, lab = recv[2], NESTED          # `d[k].append(x)`: x becomes an item of an item of d
+                    elif recv[0] == 'var' and recv[1] in self.itemvars:
+                        lab = NESTED                           # `lst = d[k]; lst.append(x)`
                     for e in vals:
                         if not _is_fresh(e):
-                            pre.append(('link', recv, ITEM, e))
+                            pre.append(('link', holder, ELEM if node.func.attr == 'add' else lab, e))
                             if node.func.attr in ('extend', 'update'):
-                                pre.append(('link', recv, ITEM, ('view', ITEM, e)))
+                                pre.append(('link', holder, lab, ('view', ITEM, e)))
                     return pre, FRESH
                 if node.func.attr in VIEW_METHODS:
                     return pre, ('view', ITEM if node.func.attr in ITEM_METHODS else SAME, recv)
@@ -568,7 +665,7 @@ class _Alias:
                 body += pi
                 for n in ast.walk(g.target):
                     if isinstance(n, ast.Name):
-                        self.compenv[n.id] = ('view', ITEM, it)
+                        self.compenv[n.id] = self.item_of(it)
                 for cnd in g.ifs:
                     pc, _ = self.expr(cnd)
                     body += pc
@@ -585,6 +682,14 @@ class _Alias:
                 c = self.cond('comprehension: ' + ast.unparse(node)[:60])
                 pre.append(('ite', c, body, []))
             return pre, ('var', t)
+        if isinstance(node, (ast.Yield, ast.YieldFrom)):
+            p, e = self.expr(node.value)
+            if self.ret_var is not None:      # an inlined generator: what it yields is what iterating the call gives
+                item = e if isinstance(node, ast.Yield) else ('view', ITEM, e)
+                t = self.tmp()
+                p = p + [('assign', t, FRESH), ('link', ('var', t), ITEM, item),
+                         ('assign', self.ret_var, ('join', ('var', self.ret_var), ('var', t)))]
+            return p, FRESH
         if isinstance(node, ast.NamedExpr):
             p, e = self.expr(node.value)
             return p + [('assign', self.var(node.target.id), e)], e
@@ -594,28 +699,162 @@ class _Alias:
                 pre += pe
         return pre, FRESH
 
+    def resolve(self, call):
+        """the function definition a call refers to, if it is one we inline: a method reached through self / cls / super()
+        (resolved along the bases, by name), a function of the package called by name, `Class.method(...)`, or `x.method(...)` on a
+        local variable where exactly one class this module knows defines a method of that (non-generic) name;
+        -> (FunctionDef | None, what `self` is bound to: 'self' | receiver expression | None).
+        An internal callee that is NOT inlined although a tracked reference is passed to it is recorded in `self.unmodelled`."""
+        f = call.func
+        pkg = _package()
+        target, bind = None, None
+        internal = False
+        if self.is_converter(call):
+            return None, None
+        if isinstance(f, ast.Attribute):
+            base = ast.unparse(f.value)
+            cls_name = getattr(self, 'cls_name', None)
+            if base in ('self', 'cls', 'super()') and cls_name is not None and not self.scope_cls_unknown():
+                here = self.scope_cls or cls_name
+                if f.attr == '__init__' and base != 'super()':
+                    return None, None
+                target = _mro_lookup(here, f.attr, skip_own=(base == 'super()'))
+                internal = target is not None
+                bind = 'self' if base in ('self', 'super()') else None
+                self._next_cls = None
+                if target is not None:
+                    # the class whose body we are about to enter (for super() inside it)
+                    for cname, node in pkg['classes'].items():
+                        if any(m is target for m in node.body):
+                            self._next_cls = cname
+            elif base in pkg['classes']:
+                target = _mro_lookup(base, f.attr)
+                internal = target is not None
+                self._next_cls = base
+            elif f.attr in pkg['methods'] and f.attr not in EXTERNAL_NAMES and self.rooted_in_variable(f.value):
+                cands = pkg['methods'][f.attr]
+                internal = True
+                lc = getattr(self, 'local_classes', {})
+                near = [c for c in cands if c[0] in lc and (lc[c[0]] is None or lc[c[0]] == c[2])]
+                if len(near) > 1:
+                    near = [c for c in near if lc[c[0]] == c[2]] or near
+                pick = near if len(near) == 1 else (cands if len(cands) == 1 else [])
+                if pick:
+                    target, bind = pick[0][1], f.value
+                    self._next_cls = pick[0][0]
+        elif isinstance(f, ast.Name):
+            if self.scope + f.id in self.local_funcs:
+                target, internal = self.local_funcs[self.scope + f.id], True
+            elif f.id in self.functions:
+                target, internal = self.functions[f.id], True
+            elif f.id in pkg['funcs'] and f.id not in self.vars:
+                internal = True
+                if len(pkg['funcs'][f.id]) == 1:
+                    target = pkg['funcs'][f.id][0]
+            self._next_cls = None
+        if target is not None and (id(target) in self.stack or len(self.stack) > INLINE_DEPTH):
+            target = None
+        if target is None and internal:
+            # an internal callee we do not look into: sound only if nothing the caller holds is passed to it
+            tracked = False
+            for a in list(call.args) + [k.value for k in call.keywords] + (
+                    [f.value] if isinstance(f, ast.Attribute) and ast.unparse(f.value) not in ('self', 'cls', 'super()') else []):
+                try:
+                    _, e = self.expr(a)
+                except Unsupported:
+                    e = ('var', -1)
+                if not _is_fresh(e):
+                    tracked = True
+            if tracked:
+                self.unmodelled.add(ast.unparse(f)[:60])
+        return target, bind
+
+    def scope_cls_unknown(self):
+        return bool(self.scope) and self.scope_cls is None
+
+    def rooted_in_variable(self, node):
+        while isinstance(node, (ast.Attribute, ast.Subscript)):
+            node = node.value
+        if isinstance(node, ast.Call):
+            return False
+        return isinstance(node, ast.Name) and (node.id in self.compenv or self.scope + node.id in self.vars)
+
+    def inline(self, call, callee, bind_self):
+        """the body of `callee` in place of the call: parameters bound to the arguments, returns collected in a variable"""
+        pre = []
+        recv = None
+        if bind_self is not None and bind_self != 'self':
+            pr, recv = self.expr(bind_self)
+            pre += pr
+        params = [a.arg for a in callee.args.args + callee.args.kwonlyargs]
+        is_method = bool(params) and params[0] in ('self', 'cls')
+        actual = {}
+        pos = [p for p in params if p not in ('self', 'cls')] if is_method else params
+        for p, a in zip(pos, call.args):
+            pe, e = self.expr(a)
+            pre += pe
+            actual[p] = e
+        for k in call.keywords:
+            if k.arg is not None:
+                pe, e = self.expr(k.value)
+                pre += pe
+                actual[k.arg] = e
+        outer_scope, outer_ret, outer_cls = self.scope, self.ret_var, self.scope_cls
+        outer_self = self.vars.get(outer_scope + 'self')
+        next_cls = self._next_cls
+        self.inlined.append(callee.name)
+        self.scope = f'{callee.name}#{len(self.inlined)}.'
+        self.scope_cls = next_cls
+        self.stack.append(id(callee))
+        for p in pos:
+            pre.append(('assign', self.var(p), actual.get(p, FRESH)))
+        if is_method and params[0] == 'self':
+            if bind_self == 'self' and outer_self is not None:
+                self.vars[self.scope + 'self'] = outer_self
+            elif recv is not None:
+                pre.append(('assign', self.var('self'), recv))
+        ret = self.tmp()
+        pre.append(('assign', ret, FRESH))
+        self.ret_var = ret
+        try:
+            pre += self.block(strip_doc(callee.body))
+        finally:
+            self.scope, self.ret_var, self.scope_cls = outer_scope, outer_ret, outer_cls
+            self.stack.pop()
+        return pre, ('var', ret)
+
     def test(self, node):
         """-> (condition index, swapped?)"""
-        if isinstance(node, ast.Name) and node.id == 'copy' and self.has_copy:
+        if isinstance(node, ast.Name) and node.id == 'copy' and self.has_copy and not self.scope:
             return 0, False
         if isinstance(node, ast.UnaryOp) and isinstance(node.op, ast.Not) and isinstance(node.operand, ast.Name) \
-                and node.operand.id == 'copy' and self.has_copy:
+                and node.operand.id == 'copy' and self.has_copy and not self.scope:
             return 0, True
         return self.cond(ast.unparse(node)[:80]), False
 
     # ---- statements
     def assign_to(self, target, e, out):
         if isinstance(target, ast.Name):
-            out.append(('assign', self.var(target.id), e))
+            v = self.var(target.id)
+            if e[0] == 'view' and e[1] in (ITEM, NESTED):
+                self.itemvars.add(v)
+            if self.is_multi_scalar(e):
+                self.mvvars.add(v)
+            out.append(('assign', v, e))
         elif isinstance(target, (ast.Tuple, ast.List)):
             for el in target.elts:
-                self.assign_to(el, e if _is_fresh(e) else ('view', ITEM, e), out)
+                self.assign_to(el, e if _is_fresh(e) else self.item_of(e), out)
         elif isinstance(target, (ast.Attribute, ast.Subscript)):
             p, b = self.expr(target.value)
             out += p
             out.append(('write', b))
-            if not _is_fresh(e):
-                out.append(('link', b, self.label(target.attr) if isinstance(target, ast.Attribute) else ITEM, e))
+            if isinstance(target, ast.Attribute):
+                # pydicom: assigning an attribute that exists rewrites its DataElement in place - an element that was put
+                # there with `add` is the very object another data set may hold
+                out.append(('write', ('view', ELEM, b)))
+                out.append(('link', b, self.label(target.attr), e))      # also for new values: `x.f` is then that object
+            elif not _is_fresh(e):
+                out.append(('link', b, ITEM, e))
         elif isinstance(target, ast.Starred):
             self.assign_to(target.value, e, out)
         else:
@@ -662,6 +901,17 @@ class _Alias:
                 out += pt
                 bt = self.block(st.body)
                 be = self.block(st.orelse)
+                # `if x is None` / `if x is not None`: in the arm where x is None it aliases nothing
+                tst = st.test
+                if isinstance(tst, ast.Compare) and len(tst.ops) == 1 and isinstance(tst.left, ast.Name) \
+                        and isinstance(tst.comparators[0], ast.Constant) and tst.comparators[0].value is None \
+                        and isinstance(tst.ops[0], (ast.Is, ast.IsNot)) and (self.scope + tst.left.id) in self.vars \
+                        and (bt or be):
+                    none_arm = [('assign', self.vars[self.scope + tst.left.id], FRESH)]
+                    if isinstance(tst.ops[0], ast.Is):
+                        bt = none_arm + bt
+                    else:
+                        be = none_arm + be
                 if not bt and not be:
                     continue
                 c, swap = self.test(st.test)
@@ -673,13 +923,21 @@ class _Alias:
                 if not isinstance(st, ast.While):
                     p, it = self.expr(st.iter)
                     out += p
-                    self.assign_to(st.target, ('view', ITEM, it), body)
+                    self.assign_to(st.target, self.item_of(it), body)
                 else:
                     p, _ = self.expr(st.test)
                     out += p
                 body += self.block(st.body)
-                c = self.cond('loop: ' + ast.unparse(st).split('\n')[0][:70])
-                out.append(('ite', c, body, []))      # the body runs zero or more times; one pass abstracts them
+                head = ast.unparse(st).split('\n')[0][:70]
+                # the body runs zero or more times: two unrolled passes (the second under its own condition) - a reference
+                # re-bound at the end of one iteration (`prev = item`) is what the next iteration works on
+                body2 = []
+                if not isinstance(st, ast.While):
+                    self.assign_to(st.target, self.item_of(it), body2)
+                body2 += self.block(st.body)
+                c = self.cond('loop: ' + head)
+                c2 = self.cond('loop, second pass: ' + head)
+                out.append(('ite', c, body + [('ite', c2, body2, [])], []))
                 out += self.block(st.orelse)
             elif isinstance(st, (ast.With, ast.AsyncWith)):
                 for it in st.items:
@@ -700,13 +958,20 @@ class _Alias:
             elif isinstance(st, ast.Return):
                 p, e = self.expr(st.value)
                 out += p
-                out.append(('ret', e))
+                if self.ret_var is not None:        # inlined: the value joins what the call may yield; execution is
+                    out.append(('assign', self.ret_var, ('join', ('var', self.ret_var), e)))   # over-approximated as going on
+                else:
+                    out.append(('ret', e))
             elif isinstance(st, ast.Raise):
                 if top:
                     out.append(('raise',))
                 # a conditional refusal only removes behaviours; the theorems quantify over the continuing ones
             elif isinstance(st, (ast.Pass, ast.Assert, ast.Import, ast.ImportFrom, ast.Global, ast.Nonlocal, ast.Break,
                                  ast.Continue)):
+                continue
+            elif isinstance(st, ast.FunctionDef):
+                self.local_funcs[self.scope + st.name] = st       # a closure: inlined where it is called
+            elif isinstance(st, ast.ClassDef):
                 continue
             else:
                 raise Unsupported(f'{self.fn.name}: statement {type(st).__name__}')
@@ -731,8 +996,19 @@ class _Alias:
     @staticmethod
     def _prune(prog, used):
         out = []
+        seen_writes = set()          # writes repeated before anything changed what they hit are idempotent
         for st in prog:
             k = st[0]
+            if k in ('write', 'deep'):
+                if st in seen_writes:
+                    continue
+                seen_writes.add(st)
+            elif k == 'link':
+                if ('L',) + st in seen_writes:
+                    continue
+                seen_writes = {x for x in seen_writes if x[0] == 'L'} | {('L',) + st}
+            else:
+                seen_writes = set()
             if k == 'assign' and st[1] not in used:
                 continue
             if k == 'assign' and _is_fresh(st[2]) and st[2] != FRESH:
@@ -741,7 +1017,7 @@ class _Alias:
                 st = ('ret', FRESH)
             if k in ('write', 'deep') and _is_fresh(st[1]):
                 continue                       # writing a value nobody else can see
-            if k == 'link' and (_is_fresh(st[1]) or _is_fresh(st[3])):
+            if k == 'link' and (_is_fresh(st[1]) or (_is_fresh(st[3]) and st[2] < 5)):
                 continue
             if k == 'ite':
                 t, e = _Alias._prune(st[2], used), _Alias._prune(st[3], used)
@@ -768,7 +1044,11 @@ class _Alias:
                 return ('join', ren_e(e[1], m), ren_e(e[2], m))
             return e
 
-        def arm(p):
+        firsts = {}
+
+        def arm(p, both=(), first=True):
+            """`both`: variables assigned in either arm of this branch - after the branch they hold one of the two new values,
+            not the old one (the first arm then overwrites, the second joins)"""
             m, out = {}, []
             for st in p:
                 k = st[0]
@@ -782,19 +1062,92 @@ class _Alias:
                 elif k == 'link':
                     out.append(('link', ren_e(st[1], m), st[2], ren_e(st[3], m)))
             for x, t in m.items():
-                out.append(('assign', x, ('join', ('var', x), ('var', t))))
+                if x in both and not first:
+                    # assigned in either arm: one of the two new values, not the old one (`firsts[x]`: the first arm's)
+                    out.append(('assign', x, ('join', ('var', firsts[x]), ('var', t))))
+                else:
+                    out.append(('assign', x, ('join', ('var', x), ('var', t))))     # weak: the other arm starts from a superset
+                    if first:
+                        firsts[x] = t
             return out
         out = []
         for st in prog:
             if st[0] == 'ite':
                 t, e = self._flatten(st[2]), self._flatten(st[3])
-                if all(x[0] in ('assign', 'write', 'deep', 'link') for x in t + e):
-                    out += arm(t) + arm(e)
+                if all(x[0] in ('assign', 'write', 'deep', 'link') for x in t + e) and not (st[1] == 0 and self.has_copy):
+                    both = {x[1] for x in t if x[0] == 'assign'} & {x[1] for x in e if x[0] == 'assign'}
+                    firsts.clear()
+                    out += arm(t, both, True) + arm(e, both, False)
                 else:
                     out.append(('ite', st[1], t, e))
             else:
                 out.append(st)
         return out
+
+    @staticmethod
+    def _slice(prog, nparams):
+        """keep what can matter for the questions asked: statements over variables that may denote (a part of) an argument
+        (forward closure from the parameters through assignments; a holder of a link to such a variable counts too), and what
+        the returned reference is computed from.  Everything else only ever touches objects the function allocated itself."""
+        flat = []
+
+        def walk(p):
+            for st in p:
+                if st[0] == 'ite':
+                    walk(st[2])
+                    walk(st[3])
+                else:
+                    flat.append(st)
+        walk(prog)
+        T = set(range(nparams))
+        R = set()
+        for st in flat:
+            if st[0] == 'ret':
+                R |= _root_vars(st[1])
+        changed = True
+        while changed:
+            changed = False
+            for st in flat:
+                k = st[0]
+                if k == 'assign':
+                    rv = _root_vars(st[2])
+                    if st[1] not in T and rv & T:
+                        T.add(st[1])
+                        changed = True
+                    if st[1] in R and not rv <= R:
+                        R |= rv
+                        changed = True
+                elif k == 'link':
+                    a, b = _root_vars(st[1]), _root_vars(st[3])
+                    if b & T and not a <= T:
+                        T |= a
+                        changed = True
+                    if a & R and not b <= R:
+                        R |= b
+                        changed = True
+        keep = T | R
+
+        def cut(p):
+            out = []
+            for st in p:
+                k = st[0]
+                if k == 'assign':
+                    if st[1] in keep:
+                        out.append(st)
+                elif k in ('write', 'deep'):
+                    if _root_vars(st[1]) & T:
+                        out.append(st)
+                elif k == 'link':
+                    if (_root_vars(st[1]) | _root_vars(st[3])) & keep:
+                        out.append(st)
+                elif k == 'ite':
+                    t, e = cut(st[2]), cut(st[3])
+                    if t or e:
+                        out.append(('ite', st[1], t, e))
+                else:
+                    out.append(st)
+            return out
+        return cut(prog)
 
     def program(self, merge_arms=False):
         prog = []
@@ -813,6 +1166,7 @@ class _Alias:
             if new == prog:
                 break
             prog = new
+        prog = self._slice(prog, len(self.params))
         # dense condition numbers
         order = []
 
@@ -836,6 +1190,118 @@ class _Alias:
         return prog
 
 
+_BASE_CACHE = {}
+_PKG = {}
+# method names that highdicom classes share with pydicom / numpy / builtin containers: a call `x.<name>(...)` on an arbitrary
+# receiver is not taken for the highdicom method
+EXTERNAL_NAMES = {'get', 'append', 'extend', 'insert', 'copy', 'index', 'items', 'keys', 'values', 'update', 'pop', 'add', 'remove',
+                  'sort', 'clear', 'count', 'find', 'format', 'join', 'split', 'strip', 'astype', 'reshape', 'flatten', 'tolist',
+                  'tobytes', 'any', 'all', 'sum', 'max', 'min', 'save_as', 'to_json', 'to_json_dict', '__init__', 'decode',
+                  'encode', 'read', 'write', 'close', 'seek', 'tell', 'group_dataset', 'walk', 'iterall', 'elements', 'title',
+                  'lower', 'upper', 'startswith', 'endswith', 'replace', 'transpose', 'squeeze', 'view', 'item', 'fill', 'round',
+                  'dot', 'mean', 'argmax', 'argmin', 'nonzero', 'ravel', 'setdefault', 'isoformat', 'strftime', 'date', 'time'}
+
+
+def _package():
+    """{'funcs': name -> [FunctionDef], 'methods': name -> [(class, FunctionDef)], 'classes': name -> ClassDef} over the package"""
+    root = os.path.join(os.environ.get('HD_REPO', '/repo'), 'src', 'highdicom')
+    if _PKG.get('root') == root:
+        return _PKG
+    funcs, methods, classes = {}, {}, {}
+    for dp, _, fs in sorted(os.walk(root)):
+        for f in sorted(fs):
+            if not f.endswith('.py') or f.startswith('_') and f not in ('__init__.py',):
+                continue
+            try:
+                tree = ast.parse(open(os.path.join(dp, f)).read())
+            except SyntaxError:
+                continue
+            mod = 'highdicom.' + os.path.relpath(os.path.join(dp, f), root)[:-3].replace(os.sep, '.')
+            mod = mod[:-len('.__init__')] if mod.endswith('.__init__') else mod
+            for node in tree.body:
+                if isinstance(node, ast.FunctionDef):
+                    funcs.setdefault(node.name, []).append(node)
+                elif isinstance(node, ast.ClassDef):
+                    classes.setdefault(node.name, node)
+                    for m in node.body:
+                        if isinstance(m, ast.FunctionDef):
+                            methods.setdefault(m.name, []).append((node.name, m, mod))
+    _PKG.clear()
+    _PKG.update(root=root, funcs=funcs, methods=methods, classes=classes)
+    return _PKG
+
+
+def _base_methods():
+    """methods of SOPClass (base.py), reachable from every SOP class constructor through self / super()"""
+    path = os.path.join(os.environ.get('HD_REPO', '/repo'), 'src', 'highdicom', 'base.py')
+    try:
+        key = (path, os.path.getmtime(path))
+    except OSError:
+        return {}
+    if key not in _BASE_CACHE:
+        out = {}
+        for node in ast.parse(open(path).read()).body:
+            if isinstance(node, ast.ClassDef) and node.name == 'SOPClass':
+                out = {f.name: f for f in node.body if isinstance(f, ast.FunctionDef)}
+        _BASE_CACHE.clear()
+        _BASE_CACHE[key] = out
+    return _BASE_CACHE[key]
+
+
+def _mro_lookup(cls_name, meth, skip_own=False, seen=None):
+    """first definition of `meth` along the (name-resolved) bases of a package class; None if it ends in an external base"""
+    pkg = _package()
+    seen = seen or set()
+    if cls_name in seen or cls_name not in pkg['classes']:
+        return None
+    seen.add(cls_name)
+    node = pkg['classes'][cls_name]
+    if not skip_own:
+        for m in node.body:
+            if isinstance(m, ast.FunctionDef) and m.name == meth:
+                return m
+    for b in node.bases:
+        bn = ast.unparse(b).split('.')[-1]
+        r = _mro_lookup(bn, meth, False, seen)
+        if r is not None:
+            return r
+    return None
+
+
+def _with_context(a, tree, cls_name):
+    """give an extractor the definitions it may inline"""
+    a.cls_name = cls_name
+    a.functions = {n.name: n for n in tree.body if isinstance(n, ast.FunctionDef)}
+    # names of classes this module defines or imports (to tell apart methods of the same name in different classes)
+    local = {n.name: None for n in tree.body if isinstance(n, ast.ClassDef)}       # None: this module itself
+    for n in ast.walk(tree):
+        if isinstance(n, ast.ImportFrom) and n.module:
+            for x in n.names:
+                local[x.asname or x.name] = n.module
+    a.local_classes = local
+    return a
+
+
+def _render_entry(qual, nparams, nconds, has_copy, prog, ident):
+    """(auxiliary definitions, entry term): long programs are split into chunks so that no list literal gets too deep for the
+    elaborator"""
+    stmts = [_lean_s(x) for x in prog]
+    chunk = 40
+    if len(stmts) <= chunk and sum(len(x) for x in stmts) < 6000:
+        return '', f'⟨"{qual}", {nparams}, {nconds}, {"true" if has_copy else "false"},\n   [{", ".join(stmts)}]⟩'
+    aux, names = [], []
+    for k in range(0, len(stmts), chunk):
+        name = f'{ident}_part{k // chunk}'
+        aux.append(f'set_option maxRecDepth 8000 in\ndef {name} : List Aliasing.Stmt :=\n  [' + ',\n   '.join(stmts[k:k + chunk]) + ']')
+        names.append(name)
+    return '\n\n'.join(aux) + '\n\n', (f'⟨"{qual}", {nparams}, {nconds}, {"true" if has_copy else "false"},\n   '
+                                          + ' ++ '.join(names) + '⟩')
+
+
+def _ident(tag, qual, k):
+    return 'prog_' + tag + '_' + ''.join(c if c.isalnum() else '_' for c in qual) + f'_{k}'
+
+
 def _functions(tree):
     """(qualified name, FunctionDef) of every converter classmethod and of the array helpers in one module"""
     out = []
@@ -850,24 +1316,34 @@ def _functions(tree):
 
 def make_alias_target(tag):
     def build(tree):
-        entries, skipped, spans = [], [], []
+        entries, skipped, spans, auxdefs = [], [], [], []
         for qual, fn in _functions(tree):
             try:
-                a = _Alias(fn)
-                prog = a.program()
+                a = _with_context(_Alias(fn), tree, qual.split('.')[0])
+                try:
+                    prog = a.program()
+                except Unsupported as e:
+                    if 'relevant conditions' not in str(e):
+                        raise
+                    a = _with_context(_Alias(fn), tree, qual.split('.')[0])   # too many paths: merge arms (not the copy branch)
+                    prog = a.program(merge_arms=True)
+                    qual += ' (arms merged)'
+                if a.unmodelled:
+                    raise Unsupported('passes a reference to internal callees that are not modelled: ' + ', '.join(sorted(a.unmodelled)))
             except Unsupported as e:
                 skipped.append((qual, str(e)))
                 continue
             spans.append(fn)
             conds = '; '.join(f'{i}: {c}' for i, c in enumerate(a.cond_texts) if i or a.has_copy)
-            entries.append(f'  -- {qual}({", ".join(a.params)})   conditions: {conds}\n'
-                           f'  ⟨"{qual}", {len(a.params)}, {len(a.cond_texts)}, {"true" if a.has_copy else "false"},\n'
-                           f'   [{", ".join(_lean_s(x) for x in prog)}]⟩')
+            aux, term = _render_entry(qual, len(a.params), len(a.cond_texts), a.has_copy, prog, _ident(tag, qual, len(entries)))
+            auxdefs.append(aux)
+            entries.append(f'  -- {qual}({", ".join(a.params)})   conditions: {conds}\n  ' + term)
         if not entries and not skipped:
             raise Unsupported(f'no converter found for {tag}')
-        text = (f'/-- alias-flow programs extracted from the converters of `{tag}` -/\n'
+        text = (''.join(auxdefs) + f'/-- alias-flow programs extracted from the converters of `{tag}` -/\n'
                 f'def alias_{tag} : List Aliasing.Entry := [\n' + ',\n'.join(entries) + '\n]\n\n'
                 f'/-- converters of `{tag}` the extractor could not abstract (carried by the correspondence only) -/\n'
+                + ''.join(f'-- skipped {q}: {why[:300]}\n' for q, why in skipped) +
                 f'def aliasSkipped_{tag} : List String := [' + ', '.join(f'"{q}"' for q, _ in skipped) + ']')
         return text, span_sha(spans) + hashlib.sha256(repr(skipped).encode()).hexdigest()[:8]
     return build
@@ -966,34 +1442,37 @@ def _constructors(tree):
 
 def make_ctor_target(tag):
     def build(tree):
-        entries, skipped, spans = [], [], []
+        entries, skipped, spans, auxdefs = [], [], [], []
         for qual, fn in _constructors(tree):
             try:
-                a = _Alias(fn)
+                a = _with_context(_Alias(fn), tree, qual.split('.')[0])
                 a.max_conds = CTOR_MAX_CONDS
                 try:
                     prog = a.program()
                 except Unsupported as e:
                     if 'relevant conditions' not in str(e):
                         raise
-                    a = _Alias(fn)                  # too many paths to enumerate: merge the arms of its branches
+                    a = _with_context(_Alias(fn), tree, qual.split('.')[0])   # too many paths: merge the arms of its branches
                     a.max_conds = CTOR_MAX_CONDS
                     prog = a.program(merge_arms=True)
                     qual += ' (arms merged)'
+                if a.unmodelled:
+                    raise Unsupported('passes a reference to internal callees that are not modelled: ' + ', '.join(sorted(a.unmodelled)))
             except Unsupported as e:
                 skipped.append((qual, str(e)))
                 continue
             spans.append(fn)
             conds = '; '.join(f'{i}: {c}' for i, c in enumerate(a.cond_texts) if i)
-            entries.append(f'  -- {qual}({", ".join(a.params)})   conditions: {conds}\n'
-                           f'  ⟨"{qual}", {len(a.params)}, {len(a.cond_texts)}, false,\n'
-                           f'   [{", ".join(_lean_s(x) for x in prog)}]⟩')
+            aux, term = _render_entry(qual, len(a.params), len(a.cond_texts), False, prog, _ident('c_' + tag, qual, len(entries)))
+            auxdefs.append(aux)
+            entries.append(f'  -- {qual}({", ".join(a.params)})   conditions: {conds[:1500]}\n  ' + term)
         if not entries and not skipped:
             raise Unsupported(f'no constructor found for {tag}')
-        text = (f'/-- alias-flow programs extracted from the constructors (`__init__`) of `{tag}`; `self` is a new object -/\n'
+        text = (''.join(auxdefs) + f'/-- alias-flow programs extracted from the constructors (`__init__`) of `{tag}`; `self` is a new object -/\n'
                 f'def ctor_{tag} : List Aliasing.Entry := [\n' + ',\n'.join(entries) + '\n]\n\n'
                 f'/-- constructors of `{tag}` beyond the extractor\'s limit of {MAX_CONDS - 1} relevant conditions (carried by the\n'
                 f'correspondence only) -/\n'
+                + ''.join(f'-- skipped {q}: {why[:300]}\n' for q, why in skipped) +
                 f'def ctorSkipped_{tag} : List String := [' + ', '.join(f'"{q}"' for q, _ in skipped) + ']')
         return text, span_sha(spans) + hashlib.sha256(repr(skipped).encode()).hexdigest()[:8]
     return build
